@@ -29,7 +29,7 @@ ASSUME = [
 ]
 RULE = ("cases: fields generated from random.Random(seed) on periodic Cartesian grids, d = 1-3, even/odd shapes, "
         "anisotropic dyadic spacings and origins; kinds noise / plane waves / droplets / constant+noise; per case the "
-        "implementation is run on the field and on its scaled, rolled, flipped, axis-permuted and stretched variants, "
+        "implementation is run on the field and on its variants scaled by every factor of spectrum_common.SCALE_FACTORS (-3.5 .. +-1e-9, 1e-11, 1e-150, 1e145), rolled, flipped, axis-permuted and stretched, "
         "smoothing None / explicit / auto, add_zero on/off; compared with (i) the model assembled from the generated "
         "lines (rel 1e-12), (ii) the property-text formulas (wave numbers rel 1e-12, values rel 1e-9 + 1e-12, "
         "(k, sf) multisets); numpy's fftn is checked against dft_spec to 1e-12 on every sample; distinct = distinct "
@@ -47,8 +47,8 @@ def gsf(field, **kw):
 def _variants(c, data, rng):
     """(name, field data, perm, stretch) variants under which the result must not change"""
     d = data.ndim
-    out = [("scale", rng.choice([-3.5, 1e-6, 0.5, 1e6]) * data, None, 1.0),
-           ("shift", np.roll(data, [rng.randrange(0, n) for n in data.shape], axis=tuple(range(d))), None, 1.0),
+    out = [(f"scale by {cc:g}", cc * data, None, 1.0) for cc in sc.SCALE_FACTORS]
+    out += [("shift", np.roll(data, [rng.randrange(0, n) for n in data.shape], axis=tuple(range(d))), None, 1.0),
            ("reflect", np.flip(data, axis=rng.randrange(d)), None, 1.0)]
     if d > 1:
         p = list(range(d))
@@ -97,7 +97,7 @@ def prop_c16(c: dict, rng: random.Random) -> list[dict]:
     for name, vdata, perm, s in _variants(c, data, rng):
         g = sc.make_field(c, vdata, scale=s, perm=perm)
         k2, sf2 = gsf(g, smoothing=None)
-        if name in ("scale", "shift"):
+        if name.startswith("scale") or name == "shift":
             if not (sc.close_arrays(k2, k, 1e-12, 0.0) and sc.close_arrays(sf2, sf, 1e-9, 1e-12)):
                 fail(f"unsmoothed structure factor changes under {name}", variant=name)
         elif name in ("reflect", "permute"):
